@@ -91,6 +91,16 @@ CHECKS = {
    "For every usable grammar explored: graph and listing show exactly the states, items, transitions, reduce lookaheads and accepting state of the automaton the tables implement, numbered as in the tables.",
    "Trusted: gographviz parser for DOT syntax, the reference conflict classification for listing-vs-table differences. The PNG rendering through the external dot program is not checked (dot is not installed).",
    "3/C18"),
+ "C19": ("fault_enumeration",
+   "exhaustive fault enumeration over corpus grammar files: every byte prefix, every single-token deletion/duplication/replacement by each fragment of a 38-piece lexical alphabet, and semantic faults derived from the specification (undefined symbol at every right-hand-side position, each nonterminal made unproductive, %prec/%left of undeclared tokens, $n out of range in each action, %type of a ruleless name, missing %start) x {go, -u, -o, typescript}, with the output path pre-filled with sentinel bytes; in-process for the whole space and through the real CLI (exit status, bytes, inode) for a fixed stride",
+   "Every input-caused failure explored leaves the existing output file byte-identical (same inode); every success leaves a complete file ending with the program section and containing a case for every rule.",
+   "Failure = error return or panic of the generator. Non-terminating inputs are excluded here (C13). Faults attributable to the environment (unwritable path, full disk) are outside the statement.",
+   "3/C19"),
+ "C15": ("model_checking",
+   "(a) exhaustive enumeration of parse histories (all sequences of <=3 parses over <=8 inputs per parser, with re-initialisation / fresh contexts, Go and TypeScript) compared with the solo (model) result; (b) stateless model checking of the real generated -o parsers under a hand-written cooperative scheduler: 2-3 contexts in separate goroutines, scheduling points at every lexer fetch and semantic action, all schedules with <=2 preemptions (all interleavings for short pairs), deviating schedules replayed; (c) separate free-running -race pass of the same bodies on 8 goroutines",
+   "Every parse in every history and every schedule must give exactly the observation of that parse alone (verdict, reductions with fetch counts, value); no data race between contexts.",
+   "Scheduling points = the places where user code runs inside Parser(); unsynchronised accesses elsewhere are the race pass's job (cooperative hand-offs are happens-before edges). Bounds: 3 parses per history, 8 inputs of <=4 tokens, 2 preemptions, 3 contexts.",
+   "3/C15"),
 }
 
 PENDING = {}
